@@ -14,7 +14,7 @@
 (*                                                                         *)
 (* Items are 1..N, the StopSentinel is 0, the failure of item x is -x.     *)
 (***************************************************************************)
-EXTENDS Integers, Sequences, FiniteSets, TLC
+EXTENDS Integers, Sequences, FiniteSets
 
 CONSTANTS T,             \* worker threads                      lazy_pool.py:58
           N,             \* length of the input iterable
